@@ -1,5 +1,6 @@
 import PyImpSpec.Cdc.RT
 import PyImpSpec.Cdc.TextRT
+import PyImpSpec.Cdc.WsProof
 import PyImpSpec.Gen.Elements
 
 /-! # C03 — circuit description codes mean one circuit, however they are spelled
@@ -43,6 +44,16 @@ theorem roundtrip_text (tbl : List ElemDef) (t : T) (hp : Printable tbl t) (hv :
 /-- the tokenizer inverts rendering on the basic syntax (symbols and the four brackets) -/
 theorem tokenize_inverts_render (t : T) (hv : LeavesValid t) : tokenize true (renderT t) = .ok (printT t) :=
   Cdc.tokenize_renderT t hv
+
+/-- **However it is spaced.** Take the basic-syntax tokens of any tree with well-formed symbols and put any amount of white space
+(blanks, tabs, line breaks, ...) before each token and after the last one: the tokenizer returns exactly the tokens of the
+unspaced code, so the parser sees the same input and returns the same circuit. -/
+theorem whitespace_immaterial (t : T) (hv : LeavesValid t) (ts : List (List Char × Token)) (trail : List Char)
+    (hts : ts.map (·.2) = printT t) (hws : ∀ p ∈ ts, ∀ c ∈ p.1, isWs c = true) (htr : ∀ c ∈ trail, isWs c = true) :
+    tokenize true (spaced ts trail) = tokenize true (renderT t) := by
+  rw [tokenize_renderT t hv, ← hts]
+  refine Cdc.tokenize_spaced ts trail htr (fun p hp => ⟨?_, hws p hp⟩)
+  exact printT_basic t hv p.2 (by rw [← hts]; exact List.mem_map.mpr ⟨p, hp, rfl⟩)
 
 /-- non-vacuity: `[R(C[RC])]` meets the hypotheses -/
 example : Printable demoTblRT (.series [.leaf "R", .parallel [.leaf "C", .series [.leaf "R", .leaf "C"]]]) ∧
